@@ -599,9 +599,12 @@ func c11Ufs(ctx *core.Ctx, dotu bool) core.Result {
 	base := libGoroutines()
 	files := []string{"file01xxx", "file02xxxxxx", "file05xxxxxxxxxxxxxxx", "file07xxxxxxxxxxxxxxxxxxxxx"}
 	for nopen := 0; nopen <= 6; nopen++ {
-		for _, cutKind := range []string{"close", "reset", "midframe", "pending-read", "open-blocked", "open-queued"} {
-			if (cutKind == "open-blocked" || cutKind == "open-queued") && nopen > 2 {
+		for _, cutKind := range []string{"close", "reset", "midframe", "pending-read", "open-blocked", "open-queued", "link-create-waiting"} {
+			if (cutKind == "open-blocked" || cutKind == "open-queued" || cutKind == "link-create-waiting") && nopen > 2 {
 				continue
+			}
+			if cutKind == "link-create-waiting" && !dotu {
+				continue // (hard links are made through the 9P2000.u extension)
 			}
 			res.Evals++
 			v := s.Dial()
@@ -658,7 +661,7 @@ func c11Ufs(ctx *core.Ctx, dotu bool) core.Result {
 					_ = v.Send(&wire.Msg{Type: wire.Tread, Tag: 95, Fid: 10, Offset: 0, Count: 100}, &wire.Msg{Type: wire.Tstat, Tag: 96, Fid: 10}, &wire.Msg{Type: wire.Tclunk, Tag: 97, Fid: 10})
 				}
 				v.Hangup()
-			case "open-blocked", "open-queued":
+			case "open-blocked", "open-queued", "link-create-waiting":
 				// a Topen that is still inside the file server at the disconnect: open(2) of a named pipe blocks until
 				// a writer shows up, which happens only after the connection's close processing is over
 				fifo := filepath.Join(root, fmt.Sprintf("pipe-%d", nopen))
@@ -675,20 +678,49 @@ func c11Ufs(ctx *core.Ctx, dotu bool) core.Result {
 				if cutKind == "open-queued" {
 					// … and, under the same tag, the Topen of a regular file (or the Tcreate of one): it waits for the
 					// first and is started only after the disconnect
-					r2, e2 := v.Rpc(&wire.Msg{Type: wire.Twalk, Tag: 82, Fid: 0, Newfid: 41, Wname: []string{[]string{files[0], "sub"}[nopen%2]}}, W)
+					r2, e2 := v.Rpc(&wire.Msg{Type: wire.Twalk, Tag: 82, Fid: 0, Newfid: 41, Wname: []string{[]string{files[0], "sub", "sub"}[nopen%3]}}, W)
 					if e2 != nil || r2.Msg == nil || r2.Msg.Type != wire.Rwalk {
 						res.Inconclusive = "c11ufs: walk for the queued request failed"
 						return res
 					}
+					if nopen == 2 {
+						if o, e := v.Rpc(&wire.Msg{Type: wire.Topen, Tag: 83, Fid: 41, Mode: 0}, W); e != nil || o.Msg == nil || o.Msg.Type != wire.Ropen {
+							res.Inconclusive = "c11ufs: open of the directory for the queued read failed"
+							return res
+						}
+					}
 				}
 				_ = v.Send(&wire.Msg{Type: wire.Topen, Tag: 81, Fid: 40, Mode: 0})
 				if cutKind == "open-queued" {
-					if nopen%2 == 0 {
+					switch nopen {
+					case 0:
 						_ = v.Send(&wire.Msg{Type: wire.Topen, Tag: 81, Fid: 41, Mode: 0})
-					} else {
+					case 1:
 						_ = v.Send(&wire.Msg{Type: wire.Tcreate, Tag: 81, Fid: 41, Name: fmt.Sprintf("made-late-%d", nopen), Perm: 0o644, Mode: 1})
+					default:
+						// a directory that is open already, listed from the start (the listing takes a fresh look at it)
+						_ = v.Send(&wire.Msg{Type: wire.Tread, Tag: 81, Fid: 41, Offset: 0, Count: 4000})
 					}
 					s.Ctl.WaitPassed("recv.dispatch", 0, 81, 2, 2*time.Second)
+				}
+				if cutKind == "link-create-waiting" {
+					// a Tcreate of a hard link to the busy fid, issued on a directory fid: it is executing, and waits for the
+					// fid it links; the directory fid itself is free when the connection closes
+					r2, e2 := v.Rpc(&wire.Msg{Type: wire.Twalk, Tag: 82, Fid: 0, Newfid: 41, Wname: []string{"sub"}}, W)
+					if e2 != nil || r2.Msg == nil || r2.Msg.Type != wire.Rwalk {
+						res.Inconclusive = "c11ufs: walk for the link create failed"
+						return res
+					}
+					waitFor(W, func() bool {
+						n := runtime.Stack(stackBuf, true)
+						return strings.Contains(string(stackBuf[:n]), "(*Ufs).Open")
+					})
+					_ = v.Send(&wire.Msg{Type: wire.Tcreate, Tag: 84, Fid: 41, Name: fmt.Sprintf("lnk-%d", nopen), Perm: 0x01000000 | 0o644, Mode: 0, Ext: "40"})
+					waitFor(2*time.Second, func() bool {
+						n := runtime.Stack(stackBuf, true)
+						return strings.Contains(string(stackBuf[:n]), "(*Ufs).Create")
+					})
+					time.Sleep(2 * time.Millisecond)
 				}
 				inOpen := waitFor(W, func() bool {
 					n := runtime.Stack(stackBuf, true)
